@@ -388,7 +388,8 @@ def _seeded_processes(ctx: Ctx, cfg: Dict[str, Any], idx: int, suite: str = "see
                                os.path.join(root, f"out{r}.json")], env=env, stdout=subprocess.PIPE, stderr=subprocess.STDOUT)
              for r in range(W)]
     outs, timed_out = [], False
-    t_end = time.time() + 90
+    import sim as _sim
+    t_end = time.time() + 4.5 * _sim.wait_limit()      # 90 s, scaled with machine load
     for p in procs:
         try:
             o, _ = p.communicate(timeout=max(1, t_end - time.time()))
